@@ -1,0 +1,8 @@
+//go:build !verif
+
+// Package verifhook holds the scheduling-jitter hook used by the verification harness in /verif.
+// Without the verif build tag it does nothing.
+package verifhook
+
+// Jitter is a no-op unless gofasta is built with -tags verif.
+func Jitter(site string, idx int) {}
